@@ -1,19 +1,29 @@
 """C13 - help pages are complete, respect hiding, fit the terminal and never fail."""
-import re, textwrap
+import re, textwrap, os
 from hutil import S, unS, err, enc_val
 import parsergen as G
 
 MODEL = "C13"
+MODEL_ENTRY = "run_C13G"
 PROP_FILES = ["Props/C13.v"]
 RULE = ("generated applications (1-3 commands, sub-commands to depth 2; default / anonymous / disabled / hidden commands; aliases; 0-3 "
         "arguments and 0-3 options per command with every flag kind; descriptions absent / short / several lines; defaults of every "
-        "type; names that look like style tags) x every command path and the application page x terminal widths {40, 47, 60, 80, 120, "
-        "200} (thorough: 40..200 sampled) x ANSI / plain; plus textwrap.wrap alone over adversarial ASCII texts x widths 1..40; "
-        "non-trivial = a page with >= 1 argument or option and >= 1 wrapped paragraph / a text that wraps; distinct by request")
+        "type incl. floats (nan, inf), '' and []; names that look like style tags; names of 20-30 characters; help texts with "
+        "{script_name} / {command_name} and with braces that are no placeholders) x every command path and the application page x "
+        "terminal widths {40, 47, 60, 80, 120, 200} (thorough: 40..200 sampled) x ANSI / plain; for every twelfth tree every page "
+        "at the widths needed_width + d, d in -2..12 (the guard of the width claim and the text widths 1..13 behind it), ANSI and "
+        "plain; plus textwrap.wrap alone over adversarial ASCII texts x widths 1..40; 'help <path>' / '<path> --help' / '<path> -h' "
+        "through DefaultApplicationConfig runs at COLUMNS 60 / 80 / 120, compared with each other and with the model's page of the "
+        "named command; non-trivial = a page with >= 1 argument or option and >= 1 wrapped paragraph / a text that wraps; "
+        "distinct by request")
 TRUSTED = ["textwrap.wrap (CPython) is modelled by hand in Model/Wrap.v for texts without tabs whose word characters are ASCII; the "
            "model is compared with textwrap.wrap itself on every run", "the layout elements are read from BlockLayout._elements / "
-           "_indentations after _render_help (no source change)"]
-ASSUMPTIONS = ["help texts and descriptions contain no tab, no brace and no non-ASCII word character; sibling commands have distinct names"]
+           "_indentations after _render_help (no source change)",
+           "str.format (the placeholders of a help text) is not modelled: the harness formats the help text itself (ref_format: "
+           "str.format, the text as it is when it is no valid template) and hands the model the result",
+           "whether wrapping cut a text inside its markup (the narrow class of the recorded finding) is decided by the harness with "
+           "CPython's textwrap and a copy of pastel's tag pattern, on the element texts and widths of the implementation"]
+ASSUMPTIONS = ["help texts and descriptions contain no tab and no non-ASCII word character; sibling commands have distinct names"]
 
 SGR = re.compile("\x1b\\[[0-9;]*m")
 WIDTHS = [40, 47, 60, 80, 120, 200]
@@ -22,32 +32,46 @@ DESCS = [None, "", "Short text", "A longer description that certainly needs to b
          "trailing space  ", "supercalifragilisticexpialidociousandevenlongerthanthatbyalotofcharacters-and-more", "   leading"]
 EDESCS = [d for d in DESCS if d != ""]
 HELPS = [None, "Help text first paragraph.\n\nSecond paragraph after an empty line, long enough to be wrapped at narrow widths for sure.",
-         "one line"]
+         "one line",
+         # the documented placeholders; text that is no valid template (an unknown name, a lone brace, a positional field)
+         "Run {script_name} {command_name} --help for more.", "Usage: {script_name} [options]", "Use {name} or {0} here", "set a { brace",
+         "a literal {{pair}} and {command_name}", "closing } only"]
 ARG_NAMES = ["file", "b", "comment", "info", "target-dir", "u", "x1", "name"]
+LONG_ARG_NAMES = ["the-name-of-the-input-file", "destination-directory-path"]
 OPT_NAMES = [("output", "o"), ("force", "f"), ("error", "e"), ("no-cache", None), ("level", "l"), ("b-opt", "b"), ("tag", None), ("with-value", "w")]
-OPT_FLAGS = [G.NO_VALUE, G.REQ_V, G.OPT_V, G.MULTI_V, G.REQ_V | G.O_INT, G.NO_VALUE | 1, G.REQ_V | 2, G.OPT_V | G.O_NULL, G.MULTI_V | G.O_INT]
-DEFAULTS = {"str": ["dv", "a \"quoted\" one", "é", "<b>"], "int": [0, 42, -7], "bool": [True, False], "list": [["x", "y"], [1, 2]]}
+LONG_OPT_NAMES = [("a-rather-long-option-name", "r"), ("yet-another-lengthy-switch", None)]
+P_LONG, P_SHORT = 1, 2     # AbstractOption.PREFER_LONG_NAME / PREFER_SHORT_NAME
+OPT_FLAGS = [G.NO_VALUE, G.REQ_V, G.OPT_V, G.MULTI_V, G.REQ_V | G.O_INT, G.NO_VALUE | P_LONG, G.REQ_V | P_SHORT, G.OPT_V | G.O_NULL, G.MULTI_V | G.O_INT,
+             G.NO_VALUE | P_SHORT, G.REQ_V | P_LONG, G.OPT_V | P_SHORT, G.MULTI_V | P_LONG, G.REQ_V | G.O_FLOAT, G.REQ_V | G.O_BOOL, G.REQ_V | G.MULTI_V]
+DEFAULTS = {"str": ["dv", "a \"quoted\" one", "é", "<b>", ""], "int": [0, 42, -7], "bool": [True, False], "list": [["x", "y"], [1, 2], []],
+            "float": [1.5, float("nan"), float("inf"), -2.0]}
 CMD_NAMES = ["server", "add", "list", "run", "b", "info"]
+LONG_CMD_NAMES = ["synchronize-repositories", "regenerate-configuration"]
+VNAMES = ["...", "value", "b", "path", "value-name-here"]
+
+
+def pick_name(rng, short, long_):
+    return rng.choice(long_) if rng.random() < 0.15 else rng.choice(short)
 
 
 def rand_opt(rng, used):
     for _ in range(10):
-        long, short = rng.choice(OPT_NAMES)
+        long, short = pick_name(rng, OPT_NAMES, LONG_OPT_NAMES)
         if long in used or (short and short in used):
             continue
         used.add(long)
         if short:
             used.add(short)
         fl = rng.choice(OPT_FLAGS)
-        if fl & 2 and not short:
-            fl &= ~2
+        if fl & P_SHORT and not short:
+            fl &= ~P_SHORT
         d = None
         if not fl & G.NO_VALUE and rng.random() < 0.6:
             if fl & G.MULTI_V:
                 d = rng.choice(DEFAULTS["list"])
             else:
-                d = rng.choice(DEFAULTS[rng.choice(["str", "int", "bool"])])
-        return {"long": long, "short": short, "flags": fl, "desc": rng.choice(EDESCS), "default": d, "vname": rng.choice(["...", "value", "b", "path"])}
+                d = rng.choice(DEFAULTS[rng.choice(["str", "int", "bool", "float"])])
+        return {"long": long, "short": short, "flags": fl, "desc": rng.choice(EDESCS), "default": d, "vname": rng.choice(VNAMES)}
     return None
 
 
@@ -56,15 +80,15 @@ def rand_args(rng, st, used):
     for _ in range(rng.randint(0, 3)):
         if st["multi"]:
             break
-        name = rng.choice(ARG_NAMES)
+        name = pick_name(rng, ARG_NAMES, LONG_ARG_NAMES)
         if name in used:
             continue
-        kind = rng.choice([G.A_REQ, G.A_OPT, G.A_MULTI, G.A_MULTI | G.A_REQ, G.A_OPT | G.A_INT])
+        kind = rng.choice([G.A_REQ, G.A_OPT, G.A_MULTI, G.A_MULTI | G.A_REQ, G.A_OPT | G.A_INT, G.A_OPT | G.A_FLOAT])
         if kind & G.A_REQ and st["optional"]:
             kind = (kind & ~G.A_REQ) | (0 if kind & G.A_MULTI else G.A_OPT)
         d = None
         if not kind & G.A_REQ and rng.random() < 0.5:
-            d = rng.choice(DEFAULTS["list"]) if kind & G.A_MULTI else rng.choice(DEFAULTS["str"] + DEFAULTS["int"])
+            d = rng.choice(DEFAULTS["list"]) if kind & G.A_MULTI else rng.choice(DEFAULTS["str"] + DEFAULTS["int"] + DEFAULTS["float"])
         if kind & G.A_MULTI:
             st["multi"] = True
         if not kind & G.A_REQ:
@@ -83,17 +107,22 @@ def rand_cmd(rng, name, depth, used_o, used_a, st):
          "enabled": rng.random() > 0.12, "hidden": rng.random() < 0.2, "desc": rng.choice(DESCS[1:]), "help": rng.choice(HELPS),
          "opts": opts, "args": args, "subs": []}
     if depth < 2:
-        for n in rng.sample(CMD_NAMES, rng.randint(0, 3)):
+        for n in rand_cmd_names(rng, rng.randint(0, 3)):
             c["subs"].append(rand_cmd(rng, n, depth + 1, used_o, used_a, st))
     return c
+
+
+def rand_cmd_names(rng, n):
+    names = rng.sample(CMD_NAMES, n)
+    return [rng.choice(LONG_CMD_NAMES) if i == 0 and rng.random() < 0.2 else x for i, x in enumerate(names)]
 
 
 def rand_app(rng):
     used = set()
     gopts = [o for o in (rand_opt(rng, used) for _ in range(rng.randint(0, 3))) if o]
-    t = {"name": rng.choice(["app", "app", None, "my-tool"]), "display": rng.choice(["App", None, "My Tool"]), "version": rng.choice(["1.0", None]),
-         "gopts": gopts, "help": rng.choice(HELPS), "cmds": []}
-    for n in rng.sample(CMD_NAMES, rng.randint(1, 3)):
+    t = {"name": rng.choice(["app", "app", None, "my-tool", "my-rather-long-tool-name"]), "display": rng.choice(["App", None, "My Tool"]),
+         "version": rng.choice(["1.0", None]), "gopts": gopts, "help": rng.choice(HELPS), "cmds": []}
+    for n in rand_cmd_names(rng, rng.randint(1, 3)):
         t["cmds"].append(rand_cmd(rng, n, 1, used, set(), {"optional": False, "multi": False}))
     return t
 
@@ -113,22 +142,25 @@ def paths(t):
 
 
 def named_paths(t):
+    """(names, indices) of the enabled, named commands"""
     out = []
 
-    def go(c, p):
+    def go(c, names, idx):
         if not c["enabled"] or c["anonymous"]:
             return
-        out.append(p + [c["name"]])
-        for s in c["subs"]:
-            go(s, p + [c["name"]])
-    for c in t["cmds"]:
+        out.append((names + [c["name"]], idx))
+        for i, s in enumerate(c["subs"]):
+            go(s, names + [c["name"]], idx + [i])
+    for i, c in enumerate(t["cmds"]):
         if c["name"] != "help":
-            go(c, [])
+            go(c, [], [i])
     return out
 
 
 WRAP_ALPHA = ["a", "bc", "word", "x", " ", "  ", "-", "--", "---", "a-b", "well-known", "e-mail-address", "\n", "1", "42", "3-4", "\"q\"", "'s", ".", ",", "!",
-              "?", "&", "_", "(", ")", "[--opt]", "<b>", "</b>", "longwordlongwordlongword", "x-", "-y", "a--b", "ab--", "é", "\xa0", "[-v\xa0<...>]", ";", "%"]
+              "?", "&", "_", "(", ")", "[--opt]", "<b>", "</b>", "longwordlongwordlongword", "x-", "-y", "a--b", "ab--", "é", "\xa0", "[-v\xa0<...>]", ";", "%",
+              "\\", "\\<u>", "{", "}"]
+SWEEP = list(range(-2, 13))     # W = needed_width + d
 
 
 def gen(rng, tier, info):
@@ -142,6 +174,7 @@ def gen(rng, tier, info):
         for w in range(1, 41):
             cases.append({"k": 2, "text": d, "width": w})
     n_w = len(cases)
+    n_sweep = 0
     for i in range(n_apps):
         t = rand_app(rng)
         widths = WIDTHS if tier != "thorough" else sorted(set(WIDTHS + [rng.randint(40, 200) for _ in range(4)]))
@@ -150,19 +183,33 @@ def gen(rng, tier, info):
                 cases.append({"k": 1, "tree": t, "W": w, "ansi": ansi})
                 for p in paths(t):
                     cases.append({"k": 0, "tree": t, "path": p, "W": w, "ansi": ansi})
+        # the guard of the width claim: every page of the tree at needed_width + d (the width is fixed when the page is built:
+        # needed_width is read from the layout elements), ANSI and plain
+        # (the model's formatter is quadratic in the length of a message: a page at text width 1 costs it seconds, so the
+        # decorated page at d = 0 is asked of every fourth of these trees only)
+        if i % 12 == 1:
+            for d in SWEEP:
+                for ansi in ((0, 1) if d != 0 or i % 48 == 1 else (0,)):
+                    cases.append({"k": 1, "tree": t, "d": d, "ansi": ansi})
+                    for p in paths(t):
+                        cases.append({"k": 0, "tree": t, "path": p, "d": d, "ansi": ansi})
+                        n_sweep += 1
     # 'help <path>' prints the same page as '<path> --help' (and -h), on the default application configuration
+    n_h = 0
     for i in range({"quick": 40, "thorough": 300, "search": 10}[tier]):
         t = rand_app(rng)
-        for p in named_paths(t):
-            cases.append({"k": 3, "tree": t, "names": p})
-    # narrow terminals: the guard of the width claim
+        for names, idx in named_paths(t):
+            cases.append({"k": 3, "tree": t, "names": names, "path": idx, "cols": [80, 80, 60, 120][(i + n_h) % 4]})
+            n_h += 1
+    # narrow terminals: far outside the guard
     t = rand_app(rng)
     for w in (5, 12, 20, 30):
         cases.append({"k": 1, "tree": t, "W": w, "ansi": 0, "narrow": True})
         for p in paths(t):
             cases.append({"k": 0, "tree": t, "path": p, "W": w, "ansi": 0, "narrow": True})
     info["exhaustive"] = False
-    info["distribution"] = {"wrap_only": n_w, "applications": n_apps, "pages": len(cases) - n_w}
+    info["distribution"] = {"wrap_only": n_w, "applications": n_apps, "pages": len(cases) - n_w - n_h, "pages_at_needed_width_plus_d": n_sweep,
+                            "help_command_runs": n_h}
     return cases
 
 
@@ -174,6 +221,18 @@ def _sty(tag, fg=None, attrs=0):
 # the default style set, as wired for the formatter model (bold = bit 0, underlined = bit 3)
 STYLE_SET = [_sty("info", "green"), _sty("comment", "cyan"), _sty("question", "blue"), _sty("error", "red", 1), _sty("b", None, 1),
              _sty("u", None, 8), _sty("c1", "cyan"), _sty("c2", "yellow")]
+STYLE_NAMES = ["info", "comment", "question", "error", "b", "u", "c1", "c2"]
+
+
+def ref_format(help, **names):
+    """the help text with its placeholders filled in - what str.format gives; a text that is no valid template (an unknown
+    placeholder, a lone brace) as it is.  (The reference for what the page shows; str.format itself is not modelled.)"""
+    if help is None:
+        return None
+    try:
+        return help.format(**names)
+    except (LookupError, ValueError, AttributeError, TypeError):
+        return help
 
 
 def w_opt(o):
@@ -189,35 +248,69 @@ def o_(v):
     return [] if v is None else [S(v)]
 
 
-def wire(c):
-    if c["k"] == 3:
-        return [3]
-    if c["k"] == 2:
-        return [2, S(c["text"]), c["width"]]
+def wire_page(c, W, gopts=None, app_name=None, with_texts=True):
+    """the model's input for the page of c at width W; gopts / app_name / with_texts: the 'help <path>' runs are made on a
+    DefaultApplicationConfig (its global options are read from the live configuration; no descriptions or help texts set)"""
     t = c["tree"]
-    sset = STYLE_SET
+    name = t["name"] if app_name is None else app_name
+    go = [w_opt(o) for o in t["gopts"]] if gopts is None else gopts
     if c["k"] == 1:
         cmds = [[S(x["name"]), int(x["anonymous"]), int(x["enabled"]), int(x["hidden"]), S(x["desc"] or "")] for x in t["cmds"]]
         # ApplicationConfig.display_name falls back to a title-cased name (configuration, not help rendering)
         display = t["display"] if t["display"] is not None else (None if t["name"] is None else re.sub(r"[\s\-_]+", " ", t["name"]).title())
-        return [1, c["W"], c["ansi"], sset, o_(t["name"]), o_(display), o_(t["version"]), [w_opt(o) for o in t["gopts"]], cmds, o_(t["help"])]
-    chain = [[[], [w_opt(o) for o in t["gopts"]], []]]
+        return [1, W, c["ansi"], STYLE_SET, o_(name), o_(display), o_(t["version"]), go, cmds, o_(ref_format(t["help"], script_name=name or "console"))]
+    chain = [[[], go, []]]
     cur = {"subs": t["cmds"]}
     for i in c["path"]:
         cur = cur["subs"][i]
         chain.append([[] if cur["anonymous"] else [S(cur["name"])], [w_opt(o) for o in cur["opts"]], [w_arg(a) for a in cur["args"]]])
-    subs = [[S(s["name"]), int(s["default"] or s["anonymous"]), int(s["anonymous"]), int(s["enabled"]), int(s["hidden"]), o_(s["desc"]), o_(s["help"]),
+    subs = [[S(s["name"]), int(s["default"] or s["anonymous"]), int(s["anonymous"]), int(s["enabled"]), int(s["hidden"]),
+             o_(s["desc"] if with_texts else None), o_(s["help"] if with_texts else None),
              [w_opt(o) for o in s["opts"]], [w_arg(a) for a in s["args"]]] for s in cur["subs"]]
-    return [0, c["W"], c["ansi"], sset, o_(t["name"]), chain, [S(a) for a in cur["aliases"]], o_(cur["help"]), subs]
+    help = ref_format(cur["help"], script_name=name or "console", command_name=cur["name"]) if with_texts else None
+    return [0, W, c.get("ansi", 0), STYLE_SET, o_(name), chain, [S(a) for a in cur["aliases"]], o_(help), subs]
+
+
+def wire_from(c, o):
+    """the width of a page requested as needed_width + d is known once the layout elements exist; the global options of the
+    default configuration are read from the live object"""
+    if c["k"] == 2:
+        return [2, S(c["text"]), c["width"]]
+    if c["k"] == 3:
+        return wire_page(dict(c, k=0, path=help_target_path(c["tree"], c["path"])), o[3], gopts=o[4], app_name=c["tree"]["name"] or "app",
+                         with_texts=False)
+    if o[0] == -1:
+        return [9]
+    return wire_page(c, o[2])
+
+
+def help_target_path(t, idx):
+    """the command whose page 'help <path>' shows: the resolver goes on from the named command to a default sub-command, as it
+    does when the command is run - the first one the (rest of the) line can be parsed for, i.e. here, the line naming nothing
+    else, the first without a required argument of its own or inherited; the first one if there is none
+    (DefaultResolver.process_default_commands)"""
+    idx = list(idx)
+    while True:
+        cur = {"subs": t["cmds"]}
+        inherited = False
+        for i in idx:
+            cur = cur["subs"][i]
+            inherited = inherited or any(a["flags"] & G.A_REQ for a in cur["args"])
+        dflt = [i for i, s in enumerate(cur["subs"]) if s["enabled"] and (s["default"] or s["anonymous"])]
+        if not dflt:
+            return idx
+        ok = [i for i in dflt if not inherited and not any(a["flags"] & G.A_REQ for a in cur["subs"][i]["args"])]
+        idx.append((ok or dflt)[0])
 
 
 def describe(c):
     if c["k"] == 3:
-        return "DefaultApplicationConfig application %r: 'help %s' against '%s --help' and '-h'" % (c["tree"], " ".join(c["names"]), " ".join(c["names"]))
+        return "DefaultApplicationConfig application %r at COLUMNS=%d: 'help %s' against '%s --help' and '-h'" % (
+            c["tree"], c.get("cols", 80), " ".join(c["names"]), " ".join(c["names"]))
     if c["k"] == 2:
         return "textwrap.wrap(%r, %d)" % (c["text"], c["width"])
-    return "%s at width %d, %s, application %r" % ("application help" if c["k"] == 1 else "help of command path %r" % c["path"], c["W"],
-                                                  "ANSI" if c["ansi"] else "plain", c["tree"])
+    return "%s at width %s, %s, application %r" % ("application help" if c["k"] == 1 else "help of command path %r" % c["path"],
+                                                  c["W"] if "W" in c else "needed_width%+d" % c["d"], "ANSI" if c["ansi"] else "plain", c["tree"])
 
 
 _APPS = {}
@@ -274,11 +367,9 @@ def build(t):
     return app
 
 
-def run_default(t, line):
+def default_app(t):
     from clikit.config import DefaultApplicationConfig
     from clikit import ConsoleApplication
-    from clikit.args import StringArgs
-    from clikit.io.output_stream import BufferedOutputStream
     config = DefaultApplicationConfig(t["name"] or "app", t["version"])
     config.set_terminate_after_run(False)
     config.set_catch_exceptions(False)
@@ -302,11 +393,16 @@ def run_default(t, line):
             cc.add_argument(a["name"], a["flags"], a["desc"], list(d) if isinstance(d, list) else d)
         for s in c["subs"]:
             fill(cc.create_sub_command(s["name"]), s)
-    taken = {"help", "h", "quiet", "q", "verbose", "v", "version", "V", "ansi", "no-ansi", "no-interaction", "n"}
     for c in t["cmds"]:
         if c["name"] != "help":
             fill(config.create_command(c["name"]), c)
-    app = ConsoleApplication(config)
+    return ConsoleApplication(config)
+
+
+def run_default(t, line):
+    from clikit.args import StringArgs
+    from clikit.io.output_stream import BufferedOutputStream
+    app = default_app(t)
     out, errs = BufferedOutputStream(), BufferedOutputStream()
     try:
         status = app.run(StringArgs(line), None, out, errs)
@@ -315,41 +411,18 @@ def run_default(t, line):
     return [status, out.fetch(), errs.fetch()]
 
 
-def run_impl(c):
-    if c["k"] == 3:
-        path = " ".join(c["names"])
-        a, b, d = run_default(c["tree"], "help " + path), run_default(c["tree"], path + " --help"), run_default(c["tree"], path + " -h")
-        return [int(a == b == d), 1 if a[0] == 0 else 0, [S(repr(x)[:3000]) for x in (a, b, d)]]
-    if c["k"] == 2:
-        try:
-            return [0, [S(l) for l in textwrap.wrap(c["text"], c["width"])]]
-        except Exception as e:  # noqa
-            return err(e)
-    from clikit.io import BufferedIO
-    from clikit.formatter import AnsiFormatter, PlainFormatter
-    from clikit.ui.rectangle import Rectangle
-    from clikit.ui.help import ApplicationHelp, CommandHelp
-    from clikit.ui.layout import BlockLayout
+def live_global_options(t):
+    """the global options of the default configuration, in the model's wire form"""
+    out = []
+    for o in default_app(t).config.options.values():
+        d = o.default
+        out.append([[S(o.long_name), [] if o.short_name is None else [S(o.short_name)], o.flags, enc_val(d)],
+                    [] if o.description is None else [S(o.description)], S(o.value_name)])
+    return out
+
+
+def layout_elems(layout):
     from clikit.ui.components import Paragraph, LabeledParagraph, EmptyLine, NameVersion
-    try:
-        app = build(c["tree"])
-    except Exception as e:  # noqa
-        return err(e)
-    if c["k"] == 1:
-        helper = ApplicationHelp(app)
-    else:
-        t = c["tree"]
-        cur = t["cmds"][c["path"][0]]
-        cmd = app.get_command(cur["name"])
-        for i in c["path"][1:]:
-            cur = cur["subs"][i]
-            cmd = cmd.get_sub_command(cur["name"])
-        helper = CommandHelp(cmd)
-    io = BufferedIO(formatter=AnsiFormatter(forced=True) if c["ansi"] else PlainFormatter())
-    io.set_terminal_dimensions(Rectangle(c["W"], 50))
-    layout = BlockLayout()
-    helper._formatter = io       # what render() hands to _render_help (fix for tag-like names)
-    helper._render_help(layout)
     elems = []
     for ind, e in zip(layout._indentations, layout._elements):
         if isinstance(e, LabeledParagraph):
@@ -369,12 +442,93 @@ def run_impl(c):
             elems.append([ind, 0, S(text)])
         else:
             elems.append([ind, 9, S(type(e).__name__)])
+    return elems
+
+
+def target_elems(t, idx):
+    """the layout elements of the page of the help target (to know how wide a terminal that page needs)"""
+    from clikit.io import BufferedIO
+    from clikit.formatter import PlainFormatter
+    from clikit.ui.help import CommandHelp
+    from clikit.ui.layout import BlockLayout
+    app = default_app(t)
+    cur = t["cmds"][idx[0]]
+    cmd = app.get_command(cur["name"])
+    for i in idx[1:]:
+        cur = cur["subs"][i]
+        cmd = cmd.get_sub_command(cur["name"])
+    helper = CommandHelp(cmd)
+    helper._formatter = BufferedIO(formatter=PlainFormatter())
+    layout = BlockLayout()
+    helper._render_help(layout)
+    return layout_elems(layout)
+
+
+def run_impl(c):
+    if c["k"] == 3:
+        path = " ".join(c["names"])
+        old = os.environ.get("COLUMNS")
+        os.environ["COLUMNS"] = str(c.get("cols", 80))
+        try:
+            a, b, d = run_default(c["tree"], "help " + path), run_default(c["tree"], path + " --help"), run_default(c["tree"], path + " -h")
+            gopts = live_global_options(c["tree"])
+        finally:
+            if old is None:
+                del os.environ["COLUMNS"]
+            else:
+                os.environ["COLUMNS"] = old
+        if a[0] == "exc":
+            page = [-1, 1 if a[1] == "ValueError" else 109]
+        else:
+            page = [0, S(a[1])] if a[0] == 0 else [-1, 109]
+        try:
+            elems = target_elems(c["tree"], help_target_path(c["tree"], c["path"]))
+        except Exception:  # noqa
+            elems = []
+        return [int(a == b == d), 1 if a[0] == 0 else 0, [S(repr(x)[:3000]) for x in (a, b, d)], c.get("cols", 80), gopts, page, elems]
+    if c["k"] == 2:
+        try:
+            return [0, [S(l) for l in textwrap.wrap(c["text"], c["width"])]]
+        except Exception as e:  # noqa
+            return err(e)
+    from clikit.io import BufferedIO
+    from clikit.formatter import AnsiFormatter, PlainFormatter
+    from clikit.ui.rectangle import Rectangle
+    from clikit.ui.help import ApplicationHelp, CommandHelp
+    from clikit.ui.layout import BlockLayout
+    try:
+        app = build(c["tree"])
+    except Exception as e:  # noqa
+        return err(e)
+    if c["k"] == 1:
+        helper = ApplicationHelp(app)
+    else:
+        t = c["tree"]
+        cur = t["cmds"][c["path"][0]]
+        cmd = app.get_command(cur["name"])
+        for i in c["path"][1:]:
+            cur = cur["subs"][i]
+            cmd = cmd.get_sub_command(cur["name"])
+        helper = CommandHelp(cmd)
+    io = BufferedIO(formatter=AnsiFormatter(forced=True) if c["ansi"] else PlainFormatter())
+    io.set_terminal_dimensions(Rectangle(c.get("W", 200), 50))
+    layout = BlockLayout()
+    helper._formatter = io       # what render() hands to _render_help (fix for tag-like names)
+    msg = ""
+    try:
+        helper._render_help(layout)
+    except Exception as e:  # noqa
+        return [[], err(e), c.get("W", 0), S("%s: %s" % (type(e).__name__, e))[:200]]
+    elems = layout_elems(layout)
+    W = c["W"] if "W" in c else max(1, needed_width(elems) + c["d"])
+    io.set_terminal_dimensions(Rectangle(W, 50))
     try:
         helper.render(io)
         page = [0, S(io.fetch_output())]
     except Exception as e:  # noqa
         page = err(e)
-    return [elems, page]
+        msg = "%s: %s" % (type(e).__name__, e)
+    return [elems, page, W, S(msg[:200])]
 
 
 # ---- oracle ----
@@ -382,32 +536,107 @@ def visible_lines(page):
     return SGR.sub("", page).split("\n")
 
 
-def needed_width(elems):
-    """the margin of the width claim: the widest (indentation + visible label + padding) + 2"""
-    need = 2
+_VIS = re.compile(r"(?i)</?(?:%s)>|</>" % "|".join(STYLE_NAMES))
+
+
+def vis_label(s):
+    """the visible text of a label the help pages build (tags of the default style set around names)"""
+    return SGR.sub("", _VIS.sub("", s))
+
+
+def text_columns(elems):
+    """per element (indentation, text, wrap width offset): the text is wrapped at  W - 1 - offset"""
     off = 0
-    vis = lambda s: SGR.sub("", re.sub(r"</?[a-z][a-z0-9]*>|</>", "", s))
     for e in elems:
         if e[1] == 1 and e[5]:
-            off = max(off, e[0] + len(vis(unS(e[2]))) + e[4])
+            off = max(off, e[0] + len(vis_label(unS(e[2]))) + e[4])
+    out = []
     for e in elems:
         if e[1] == 1:
-            lab = len(vis(unS(e[2]))) + e[4]
-            need = max(need, (max(off, e[0] + lab) if e[5] else e[0] + lab) + 2)
+            lab = len(vis_label(unS(e[2]))) + e[4]
+            out.append((unS(e[3]), max(off, e[0] + lab) if e[5] else e[0] + lab))
         elif e[1] == 0:
-            need = max(need, e[0] + 2)
-    return need
+            out.append((unS(e[2]), e[0]))
+    return out
+
+
+def needed_width(elems):
+    """the margin of the width claim: the widest (indentation + visible label + padding) + 2 - one character of text"""
+    return max([2] + [o + 2 for _, o in text_columns(elems)])
+
+
+_SPLIT = textwrap.TextWrapper()
+
+
+def words_fit(text, width):
+    munged = _SPLIT._munge_whitespace(text)
+    return all(len(ch) <= width for ch in _SPLIT._split(munged))
+
+
+def words_fit_page(elems, W):
+    """Proofs/HelpRenderLemmas.v page_words_fitb (and room for the labels): every text that holds a '<' has only words that fit
+    its wrap width - there textwrap breaks no word, so no markup is cut.  Compared with the model's answer on every page."""
+    cols = text_columns(elems)
+    return int(W >= max([2] + [o + 2 for _, o in cols]) and all("<" not in t or words_fit(t, W - 1 - o) for t, o in cols))
+
+
+TAG = re.compile(r"(?is)(\\?)<(?:[a-z][a-z0-9,_=;-]*|/(?:[a-z][a-z0-9,_=;-]*)?)>")     # pastel's FULL_TAG_REGEX, with the escaping backslash
+
+
+def markup_tokens(s):
+    """what the formatter would act on: the tags (escaped or not) and the escaped '<' in s"""
+    toks = [(m.group(1), m.group(0).lstrip("\\").lower()) for m in TAG.finditer(s)]
+    return toks, len(re.findall(r"\\<", s))
+
+
+def cut_in_markup(elems, W):
+    """some text of the page, wrapped by textwrap.wrap at its wrap width, comes back with other markup than it had: a tag or
+    an escaped '<' was cut by a line break (a word was broken inside it)"""
+    for t, o in text_columns(elems):
+        if "<" not in t or W - 1 - o < 1:
+            continue
+        lines = textwrap.wrap(t, W - 1 - o)
+        if markup_tokens(" ".join(_SPLIT._munge_whitespace(t).split())) != markup_tokens(" ".join(" ".join(lines).split())):
+            return True
+    return False
+
+
+KNOWN = "help-text-cut-in-markup:"
 
 
 def canon_impl(c, o):
-    return [1] if c["k"] == 3 and o[0] == 1 and o[1] == 1 else o
+    if c["k"] == 3:
+        return o[5] if o[0] == 1 else [-2, o[0], o[1]]     # the page of the three runs (or the kind of their failure)
+    if c["k"] == 2 or o[0] == -1:
+        return o
+    return [o[0], o[1], words_fit_page(o[0], o[2]) if o[0] else 0]
+
+
+def canon_model(c, m):
+    if c["k"] == 2 or not (isinstance(m, list) and len(m) == 4):
+        return m
+    if c["k"] == 3:
+        return m[1]                    # the page; the elements are not seen in a run
+    # m[3]: the page is in the region where Props/C13.v proves that it renders and fits (layout_okb; needs more than the
+    # harness computes: neutral markup) - it implies m[2], which the harness computes too
+    return m[:3] if m[2] or not m[3] else m
 
 
 def oracle(c, o):
     if c["k"] == 3:
         if o[0] != 1:
             return "help-command-and-help-option-print-different-pages"
-        return None if o[1] == 1 else "help-run-failed"
+        if o[1] != 1:
+            # on a terminal narrower than the labels of the page need, a failing run is outside the property's guard
+            return None if o[6] and c.get("cols", 80) < needed_width(o[6]) else "help-run-failed"
+        # which page: the USAGE block starts with the synopsis of the named command ('app server add ...'; a page of another
+        # command starts with other names, a command's own name is in brackets only on the page of its parent)
+        lines = visible_lines(unS(o[5][1]))
+        want = " ".join([c["tree"]["name"] or "app"] + c["names"])
+        first = lines[1].strip() if len(lines) > 1 and lines[0] == "USAGE" else ""
+        if not (first == want or first.startswith(want + " ")):
+            return "help-shows-the-page-of-another-command"
+        return None
     if c["k"] == 2:
         if o[0] != 0:
             return "wrap-raised" if c["width"] >= 1 else None
@@ -417,21 +646,55 @@ def oracle(c, o):
         return None
     if o[0] == -1:
         return "application-construction-failed"
-    elems, page = o
+    r = oracle0(c, o)
+    if r is None:
+        return None
+    # The recorded finding: a help text is wrapped by textwrap, which knows nothing of markup.  Only on a page on which a line
+    # break of this very rendering falls inside a tag or behind an escaping backslash (decided here with CPython's textwrap),
+    # and only for the clause that failed (the entry in known_findings.json lists the clauses that are that defect).
+    elems, W = o[0], o[2]
+    if elems and cut_in_markup(elems, W):
+        return "harness-inconsistent:words-fit-but-markup-cut" if words_fit_page(elems, W) else KNOWN + r
+    return r
+
+
+def oracle0(c, o):
+    elems, page, W = o[0], o[1], o[2]
     t = c["tree"]
-    narrow = c["W"] < needed_width(elems)
+    if not elems and page[0] != 0:
+        return "help-page-raised"              # building the layout failed (before any width matters)
+    narrow = W < needed_width(elems)
     if page[0] != 0:
-        return None if narrow else "help-page-raised"
+        if narrow:
+            return None
+        return "help-page-raised" + ("-nested-style-tag" if unS(o[3]).startswith("ValueError: Incorrectly nested style tag found") else "")
     text = unS(page[1])
     lines = visible_lines(text)
-    if not narrow and any(len(l) > c["W"] for l in lines):
+    if not narrow and any(len(l) > W for l in lines):
         return "line-wider-than-terminal"
     if not c["ansi"] and "\x1b" in text:
         return "plain-page-emits-escape"
-    body = "\n".join(lines)
+    # the USAGE block with the line breaks of the wrapping taken out; the rest of the page
+    # (on a very narrow page the heading itself is wrapped, and cut in its markup: 'USAGE</b' / '>')
+    k0 = min([i for i, l in enumerate(lines) if l.startswith("USAGE")] or [-1])
+    k1 = lines.index("", k0 + 1) if k0 >= 0 and "" in lines[k0 + 1:] else len(lines)
+    usage = "".join(l.strip(" ") for l in lines[k0 + 1:k1]) if k0 >= 0 else ""
+    rest = lines[:k0] + lines[k1:] if k0 >= 0 else lines
+    short_re = lambda s: r"(^|[ (\[])-%s($|[ )\]\xa0])" % re.escape(s)
 
-    def listed(label):
-        return any(l.strip().startswith(label) or (" " + label) in l for l in lines)
+    def value_names_shown(opts):
+        # an option the synopsis names shows the placeholder of its value behind the name
+        allowed = {}
+        for o_ in opts:
+            if not o_["flags"] & G.NO_VALUE:
+                for nm in ["--" + o_["long"]] + (["-" + o_["short"]] if o_["short"] else []):
+                    allowed.setdefault(nm, set()).add(o_["vname"])
+        for nm, vns in allowed.items():
+            for m in re.finditer(r"\[%s\xa0" % re.escape(nm), usage):
+                tail = usage[m.end():]
+                if not any(tail.startswith("<%s>" % v) or tail.startswith("[<%s>]" % v) for v in vns):
+                    return False
+        return True
     if c["k"] == 1:
         for x in t["cmds"]:
             shown = any(re.match(r"^  %s( |$)" % re.escape(x["name"]), l) for l in lines)
@@ -439,29 +702,39 @@ def oracle(c, o):
             if shown != want:
                 return "command-listing-wrong:%s" % ("missing" if want else "hidden-or-disabled-shown")
         for o_ in t["gopts"]:
-            if not any(("--" + o_["long"]) in l for l in lines):
+            if not any(("--" + o_["long"]) in l for l in rest):
                 return "global-option-missing"
-            if o_["short"] and not any(re.search(r"(^|[ (\[])-%s($|[ )\]\xa0])" % o_["short"], l) for l in lines):
+            if o_["short"] and not any(re.search(short_re(o_["short"]), l) for l in rest):
                 return "option-short-name-missing"
+        if not narrow:
+            for ph in ("<command>", "<arg1>", "<argN>"):
+                if ph not in usage:
+                    return "argument-missing-in-synopsis"
+            if not value_names_shown(t["gopts"]):
+                return "value-name-missing-in-synopsis"
         return None
     cur = {"subs": t["cmds"], "opts": t["gopts"], "args": []}
     chain = [cur]
     for i in c["path"]:
         cur = cur["subs"][i]
         chain.append(cur)
-    # the USAGE block with the line breaks of the wrapping taken out
-    usage = "".join(l.strip() for l in lines[1:lines.index("")]) if "" in lines else ""
     for lvl in chain:
         for o_ in lvl["opts"]:
-            if not any(("--" + o_["long"]) in l for l in lines):
+            if not any(("--" + o_["long"]) in l for l in rest):
                 return "option-missing"
-            if o_["short"] and not any(re.search(r"(^|[ (\[])-%s($|[ )\]\xa0])" % o_["short"], l) for l in lines):
+            if o_["short"] and not any(re.search(short_re(o_["short"]), l) for l in rest):
                 return "option-short-name-missing"
         for a in lvl["args"]:
             if not any(re.match(r"^ +<%s>( |$)" % re.escape(a["name"]), l) for l in lines):
                 return "argument-missing"
+            if narrow:
+                continue
             if ("<%s%s>" % (a["name"], "1" if a["flags"] & G.A_MULTI else "")) not in usage:
                 return "argument-missing-in-synopsis"
+            if a["flags"] & G.A_MULTI and ("<%sN>" % a["name"]) not in usage:
+                return "argument-missing-in-synopsis"
+    if not narrow and not value_names_shown([o_ for lvl in chain + [s for s in cur["subs"] if s["enabled"]] for o_ in lvl["opts"]]):
+        return "value-name-missing-in-synopsis"
     for s in cur["subs"]:
         shown = any(re.match(r"^  %s$" % re.escape(s["name"]), l) for l in lines)
         want = s["enabled"] and not s["hidden"] and not s["anonymous"]
@@ -472,7 +745,7 @@ def oracle(c, o):
                 if not any(re.match(r"^ +<%s>( |$)" % re.escape(a["name"]), l) for l in lines):
                     return "sub-command-argument-missing"
             for o_ in s["opts"]:
-                if not any(("--" + o_["long"]) in l for l in lines):
+                if not any(("--" + o_["long"]) in l for l in rest):
                     return "sub-command-option-missing"
     return None
 
@@ -480,10 +753,10 @@ def oracle(c, o):
 def nontrivial_key(c, o):
     import json
     if c["k"] == 3:
-        return ("h", json.dumps(c["tree"], sort_keys=True), tuple(c["names"]))
+        return ("h", json.dumps(c["tree"], sort_keys=True), tuple(c["names"]), c.get("cols", 80))
     if c["k"] == 2:
         return ("w", c["text"], c["width"]) if o[0] == 0 and len(o[1]) > 1 else None
     if o[0] == -1:
         return None
     has = any(e[1] == 1 for e in o[0])
-    return ("p", json.dumps(c["tree"], sort_keys=True), repr(c.get("path")), c["W"], c["ansi"]) if has else None
+    return ("p", json.dumps(c["tree"], sort_keys=True), repr(c.get("path")), o[2], c["ansi"]) if has else None
